@@ -154,10 +154,21 @@ theorem execStmts_sim (h : Sim R I J) (funs : List (String × List Stmt)) :
             · exact ⟨hr0, rfl⟩
       | ret => simp only []; exact ⟨hR, trivial⟩
       | bad => simp only []; exact ⟨hR, trivial⟩
-      | typeset sc opts operands =>
+      | typeset temps sc opts operands =>
+        obtain ⟨hr, hb⟩ := runAssigns_sim h .volatile true temps _ _ (h.step s t (.push .volatile) hR).1
         simp only []
-        apply fin
-        exact (h.step _ _ _ (typesetFold_sim h sc opts operands _ _ (h.step s t _ hR).1)).1
+        cases hI : runAssigns I .volatile true (I.step s (.push .volatile)).1 temps with
+        | mk s1 b =>
+          cases hJ : runAssigns J .volatile true (J.step t (.push .volatile)).1 temps with
+          | mk t1 c =>
+            rw [hI, hJ] at hr hb
+            simp only at hr hb
+            subst hb
+            cases b
+            · simp only []
+              apply fin
+              exact (h.step _ _ _ (typesetFold_sim h sc opts operands _ _ hr)).1
+            · exact ⟨hr, rfl⟩
       | print b opts names =>
         simp only [h.getIn s t _ _ hR]
         split
